@@ -29,6 +29,9 @@ CHECKS = {
     "C04": dict(tech="generated API programs with scripted re-entrant callbacks executed by the core_exec interpreter on the ASan+UBSan+LSan build, accounting allocator via m_set_memhook (free-of-unknown, outstanding table at quiescence), zombie and retained-event probes",
                 text="Every scenario profile (random mixed programs and hostile-lifetime templates: mailbox overflow, self stop/deregister/unsubscribe with mail in flight, cross-module stop inside one poll batch, events retained past source/module/context, auto-free fan-out) is executed under the sanitizers in both driving modes; a violation is any sanitizer report, an allocator verdict, or blocks outstanding after teardown. Memory safety is judged on the executions produced; red-zone limits apply.",
                 ref="C04"),
+    "C01": dict(tech="offline trace oracle (documented-edge state machine with cause attribution, callback pairing, evaluation-pass and running-count rules) over dense state observations recorded by the core_exec interpreter running generated lifecycle programs with scripted re-entrant callbacks; plain build, both driving modes",
+                text="Hundreds (quick) to tens of thousands (thorough) of generated multi-module histories with every (state, call) pair issued from outside and from inside each callback kind and all eval/start result combinations are executed against the real library; the oracle judges every observed state change, every lifecycle return code, every callback and every evaluation pass. Histories are sampled, not enumerated.",
+                ref="C01"),
 }
 
 NOT_YET = "check not built yet in this round (work in progress, see DESIGN.md §3 for the planned monitor)"
